@@ -25,12 +25,20 @@ def run_seed(verif_seed, profile_name, run_index):
   return int.from_bytes(h[:8], "big")
 
 
-class RunTimeout(Exception):
-  pass
+class RunTimeout(BaseException):
+  """Raised from a signal handler inside whatever is running; a BaseException so that the engine's
+  own `except Exception` around formula evaluation cannot turn it into a cell value."""
+  def __init__(self, kind):
+    BaseException.__init__(self, kind)
+    self.kind = kind
 
 
 def _alarm(_sig, _frm):
-  raise RunTimeout()
+  raise RunTimeout("wall")
+
+
+def _cpu_alarm(_sig, _frm):
+  raise RunTimeout("cpu")
 
 
 class RunResult(object):
@@ -67,8 +75,12 @@ def execute(profile, seed=None, cfg=None, events=None, tier="quick", time_limit=
   res.seed = seed
   profile.current_run_index = run_index
   t0 = time.time()
+  # Two limits: CPU time of this process (independent of how busy the machine is; what a run that
+  # does not terminate exhausts) and a much larger wall-clock backstop.
   old = signal.signal(signal.SIGALRM, _alarm)
-  signal.alarm(int(time_limit))
+  old_prof = signal.signal(signal.SIGPROF, _cpu_alarm)
+  signal.alarm(int(time_limit) * 6)
+  signal.setitimer(signal.ITIMER_PROF, float(time_limit))
   sim = None
   try:
     rng = random.Random(seed) if seed is not None else None
@@ -107,13 +119,21 @@ def execute(profile, seed=None, cfg=None, events=None, tier="quick", time_limit=
       if not profile.sandbox_death_is_violation:
         res.harness_error = "SandboxDied: %s" % e
         res.violation = None
-  except RunTimeout:
-    res.harness_error = "run exceeded %ss" % time_limit
+  except RunTimeout as e:
+    if e.kind == "cpu" and profile.cpu_timeout_is_violation and sim is not None:
+      res.violation = {"prop": profile.prop, "oracle": "non-termination",
+                       "detail": "one run used more than %s CPU seconds (runs of this profile take "
+                                 "milliseconds)" % time_limit,
+                       "event_index": len(sim.events) - 1}
+    else:
+      res.harness_error = "run exceeded %ss (%s)" % (time_limit, e.kind)
   except Exception:      # pylint: disable=broad-except
     res.harness_error = traceback.format_exc()
   finally:
+    signal.setitimer(signal.ITIMER_PROF, 0)
     signal.alarm(0)
     signal.signal(signal.SIGALRM, old)
+    signal.signal(signal.SIGPROF, old_prof)
   if sim is not None:
     res.events = sim.events
     res.counters = sim.counters
@@ -144,7 +164,7 @@ def minimise(profile, cfg, events, violation, budget_s=60, max_replays=150):
     if replays[0] >= max_replays or time.time() - t0 > budget_s:
       return False
     replays[0] += 1
-    r = execute(profile, cfg=cfg, events=cand, time_limit=30)
+    r = execute(profile, cfg=cfg, events=cand, time_limit=min(30, profile.run_time_limit))
     return r.harness_error is None and same_failure(r.violation, violation)
 
   # keep only events up to the failing one
